@@ -314,8 +314,10 @@ def replace_star_with_str(obj, value):
 
 def expand_plates(obj, parent=None, idx=None):
     if isinstance(obj, list):
-        for i, element in enumerate(obj):
-            expand_plates(element, obj, i)
+        # a plate is replaced in place by its objects: go backwards so that the
+        # positions still to be visited do not move
+        for i in reversed(range(len(obj))):
+            expand_plates(obj[i], obj, i)
     elif isinstance(obj, dict):
         if 'type' in obj and obj['type'].endswith('Plate'):
             if 'range' in obj:
@@ -328,6 +330,8 @@ def expand_plates(obj, parent=None, idx=None):
                     else:
                         replace_star_with_str(clone, str(i))
                     objects.append(clone)
+                # plates nested in the new objects
+                expand_plates(objects)
                 # replace plate dict with object list in parent list
                 if idx is not None:
                     del parent[idx]
